@@ -76,13 +76,19 @@ let parse_item (w : string) : item =
   match w.[0] with
   | 'S' -> IStr (str_of_hex rest)
   | 'N' -> INum (z_of_decimal rest)
+  | 'V' -> (* V<kind><hex>: a streamable object and what its operator<< writes *)
+      if String.length rest < 2 then raise Bad else
+      let k = (match rest.[0] with 'b' -> OBaseRef | 'u' -> ONonCopyable | 'm' -> OCopyMarked | _ -> raise Bad) in
+      IObj (k, str_of_hex (String.sub rest 1 (String.length rest - 1)))
   | 'X' -> (* an insertion that makes the statement's stringstream fail *)
       (match rest with "x" -> IFail FNullCStr | "y" -> IFail FNullStreambuf | "z" -> IFail FUserFailbit | _ -> raise Bad)
   | 'C' -> (* C<kind><id>.<hex>: the kind is the C++ shape of the callable; the model carries it and ignores it *)
       if rest = "" then raise Bad else
       let k = (match rest.[0] with
                | 'o' -> KFunctor | 'l' -> KLambda | 'p' -> KFunPtr | 'f' -> KStdFunL | 'F' -> KStdFunR
-               | 'c' -> KStdFunCStr | 'k' -> KConstObj | 'v' -> KLambdaVar | _ -> raise Bad) in
+               | 'c' -> KStdFunCStr | 'k' -> KConstObj | 'v' -> KLambdaVar
+               | 'M' -> KMutableLambda | 'w' -> KNonConstTemp | 'W' -> KNonConstVar | 'Q' -> KNonConstConstVar
+               | 'i' -> KBoolTemp | 'I' -> KBoolVar | 'j' -> KInsertableVar | _ -> raise Bad) in
       let rest = String.sub rest 1 (String.length rest - 1) in
       (match String.index_opt rest '.' with
        | Some i -> ICall (k, nat_of_int (int_of_string (String.sub rest 0 i)), str_of_hex (String.sub rest (i + 1) (String.length rest - i - 1)))
